@@ -34,8 +34,10 @@ class SimDeadlock(RuntimeError):
     """The caller waits for a result while no simulator event is enabled."""
 
 
-class SimStepLimit(RuntimeError):
-    """Step cap of the run exceeded (harness error, not a verdict)."""
+class SimStepLimit(SimDeadlock):
+    """Bounded liveness: the call did not return within the step bound of the run (20 000
+    simulator events, against at most a few hundred needed by any generated workload).
+    Reported like a deadlock: class `no-return`."""
 
 
 class _SimCondition:
